@@ -107,6 +107,20 @@ def fold(events):
             continue
         out.append(n)
     out = [x for x in out if x["e"] != "EnablePartial"]
+    # encoder: WStopAck (STOP -> IDLE + signal inside the WTop section) merges into the WTop event that follows
+    out2 = []
+    ack = {}
+    for n in out:
+        if n["e"] == "WStopAck":
+            ack[n["tid"]] = n
+            continue
+        if n["e"] == "WTop":
+            a = ack.pop(n["tid"], None)
+            n["ack"] = 1 if a else 0
+            if a:
+                n["nsig"] += a["nsig"]
+        out2.append(n)
+    out = out2
     for n in out:
         del n["tid"]
     return init_ev, out
